@@ -43,6 +43,28 @@ PURE_METHODS = STR_METHODS | {'startswith', 'endswith', 'get', 'keys', 'values',
 EXC_SUFFIXES = ('Exception', 'Error', 'Warning')
 
 
+UNORDERED = 'unordered source: '
+DIR_METHODS = {'iterdir', 'rglob'}
+DIR_FUNCS = {'os.listdir', 'os.scandir', 'glob.glob', 'glob.iglob', 'os.walk', 'listdir', 'scandir', 'iglob'}
+
+
+def unordered_source(e: ast.Call) -> T.Optional[str]:
+    """Calls whose result order is decided by the file system or the process environment, not by the build definition."""
+    f = e.func
+    cn = attr_chain(f) or ''
+    if cn in DIR_FUNCS:
+        return UNORDERED + f'directory-listing order ({cn}())'
+    if isinstance(f, ast.Attribute):
+        if f.attr in DIR_METHODS and not e.keywords and len(e.args) <= 1:
+            return UNORDERED + f'directory-listing order (.{f.attr}())'
+        if f.attr == 'glob' and cn.split('.')[0] not in ('self', 'mesonlib') and len(e.args) == 1 and cn != 'glob.glob' \
+                and isinstance(e.args[0], (ast.Constant, ast.JoinedStr)):
+            return UNORDERED + 'directory-listing order (.glob())'
+        if f.attr in ('items', 'keys', 'values') and attr_chain(f.value) == 'os.environ' and not e.args:
+            return UNORDERED + f'order of environment variables (os.environ.{f.attr}())'
+    return None
+
+
 class FC:
     """Function context: locals with their annotations / defining values."""
 
@@ -352,6 +374,8 @@ class Analyzer:
 
     def _attr_ty(self, e: ast.Attribute, fc: FC, depth: int) -> Ty:
         res = self.res
+        if attr_chain(e) == 'os.environ' and fc.owner('os') is None:
+            return Ty('set', None, fc.mod, UNORDERED + 'order of environment variables (os.environ)')
         # module attribute through the import table first
         if isinstance(e.value, ast.Name) and fc.owner(e.value.id) is None:
             m2 = res.module_alias(fc.mod, e.value.id)
@@ -383,6 +407,9 @@ class Analyzer:
     def _call_ty(self, e: ast.Call, fc: FC, depth: int) -> Ty:
         res = self.res
         f = e.func
+        src = unordered_source(e)
+        if src is not None:
+            return Ty('set', None, fc.mod, src)
         if isinstance(f, ast.Name):
             if f.id in ('set', 'frozenset') and fc.owner(f.id) is None:
                 return Ty('set', None, fc.mod, f'{f.id}(...)')
